@@ -11,7 +11,7 @@ supported interpreter: after each step the result must equal what the built-ins 
 plain operands, belong to the declared class, and no Nat instance may be negative."""
 from ..common import *
 
-LEVEL = "model_checked"
+LEVEL = "model_checking"
 
 
 def run(ctx):
